@@ -323,7 +323,10 @@ def run_unit(unit, repo='/repo', outdir=None, solver='z3', canary=True, timeout=
             csucc = {f['function'].split('::')[-1]: f.get('success') for f in cfb}
             cfs = [f for f in cmeta['functions'] if f.get('is_canary')]
             not_failing = [f['name'] for f in cfs if csucc.get(f['gen_fn']) is not False]
-            res['canary'] = {'ran': True, 'ok': not not_failing, 'functions_expected_to_fail': len(cfs),
+            # prelude canaries (axiom consistency): every `*__canary` proof fn must fail as well
+            pre_can = sorted(set(re.findall(r'\bfn\s+(\w+__canary)\b', cgen)) - set(f['gen_fn'] for f in cfs))
+            not_failing += [n for n in pre_can if csucc.get(n) is not False]
+            res['canary'] = {'ran': True, 'ok': not not_failing, 'functions_expected_to_fail': len(cfs) + len(pre_can),
                              'functions_that_verified_ensures_false': not_failing}
             if not_failing:
                 res['status'] = 'undecided'
